@@ -14,10 +14,12 @@ var Registry = map[string]func(*core.Run){
 	"C03": CheckC03,
 	"C04": CheckC04,
 	"C05": CheckC05,
+	"C06": CheckC06,
 	"C07": CheckC07,
 	"C08": CheckC08,
 	"C10": CheckC10,
 	"C11": CheckC11,
+	"C12": CheckC12,
 	"C17": CheckC17,
 	"C09": CheckC09,
 }
